@@ -205,6 +205,9 @@ End(t) ==
   /\ last' = 6000 + t
   /\ UNCHANGED <<pid, now, fin, sched, ap, ts, prog, work, lv0, hist, load>>
 
+\* the level the buffer holds before the first access obeys the bounds too
+LvOK(b, x) == /\ Has(P.buffers[b].lower) => x >= Val(P.buffers[b].lower)
+              /\ Has(P.buffers[b].upper) => x <= Val(P.buffers[b].upper)
 BoundsOK(b) == /\ Has(P.buffers[b].lower) => level[b] >= Val(P.buffers[b].lower)
                /\ Has(P.buffers[b].upper) => level[b] <= Val(P.buffers[b].upper)
 
@@ -256,6 +259,7 @@ FinishClauses ==
   { <<"G_all_done",      \A t \in T : st[t] \in {"done", "skipped"}>>,
     <<"G_horizon",       now <= P.H>>,
     <<"G_buffer_bounds", \A b \in B : BoundsOK(b)>>,
+    <<"G_buffer_bounds_initial", \A b \in B : LvOK(b, lv0[b])>>,
     <<"G_final_level",   \A b \in B : Has(P.buffers[b].final) => level[b] = Val(P.buffers[b].final)>>,
     <<"G_workload",      Declarative \/
                          \A c \in WorkLoadCons : Binding(c) =>
@@ -274,8 +278,8 @@ Unspec == UNION { UnspecCon(P, Schedule, P.cons[c]) : c \in { d \in C : ap[d] } 
 
 Emit == PrintT(ToJson([pid |-> pid, sched |-> sched, s |-> ts, e |-> te,
                        used |-> [u \in U |-> ust[u] = "done"], bs |-> ubs, be |-> ube,
-                       ap |-> ap, lv0 |-> lv0, hist |-> FinalHist,
-                       ind |-> IndValues(P, Schedule, FinalHist, lv0),
+                       ap |-> ap, lv0 |-> lv0, hist |-> hist,
+                       ind |-> IndValues(P, Schedule, hist, lv0),
                        unspec |-> SetToSeq(Unspec)]))
 
 Finish ==
@@ -290,7 +294,8 @@ Finish ==
 ---------------------------------------------------------------------------
 LvRange(b) == IF Has(P.buffers[b].initial) THEN {Val(P.buffers[b].initial)}
               ELSE P.buffers[b].init_lo .. P.buffers[b].init_hi
-InitLevels == { f \in [B -> UNION { LvRange(b) : b \in B }] : \A b \in B : f[b] \in LvRange(b) }
+InitLevels == { f \in [B -> UNION { LvRange(b) : b \in B }] :
+                   \A b \in B : f[b] \in LvRange(b) /\ LvOK(b, f[b]) }
 
 Init ==
   /\ pid \in 1..Len(Problems)
